@@ -218,7 +218,7 @@ def end_to_end(chk, tier):
                            'formula': f, 'impl': g, 'helper': w})
     chk.sample({'formula': formulas[0], 'value': got[0]})
     # DATE written with literals only, in particular years below 1900 (Excel adds 1900) and out-of-range months / days
-    lits = [(99, 12, 31), (0, 1, 1), (1899, 1, 1), (1900, 1, 1), (5, 14, 40), (2024, 0, 15), (2024, 2, 30), (2023, 13, 1), (24, 2, 29), (1899, 12, 31), (1900, 3, 0), (2024, 12, 31)]
+    lits = [(99, 12, 31), (0, 1, 1), (1899, 1, 1), (1900, 1, 1), (5, 14, 40), (2024, 0, 15), (2024, 2, 30), (2023, 13, 1), (24, 2, 29), (1899, 12, 31), (1900, 3, 0), (2024, 12, 31), (1900, 1, 0), (1900, 0, 1), (0, 0, 0), (1900, 1, -5), (0, 1, 0)]
     lf = ['=DATE(%d,%d,%d)' % t for t in lits] + ['=YEAR(DATE(%d,%d,%d))' % t for t in lits]
     lw = [core.outcome(lambda t=t: inst._date(*t)) for t in lits] + [core.outcome(lambda t=t: inst._date(*t).year) for t in lits]
     for f, g, w in zip(lf, realcode.eval_formulas(lf, {}), lw):
